@@ -322,7 +322,9 @@ def _job_rescale(job, pygam):
     b0 = b1 = None
     for attempt in range(8):
         b0 = _build(case, pygam)
-        elig = eligible_features(b0['gam'].terms)
+        # a constant column has no units to change: its edge knots coincide and the code falls back to scale = 1
+        # (the hypothesis e0 != e1 of affine_invariant); such features are left alone
+        elig = [f for f in eligible_features(b0['gam'].terms) if b0['X'][:, f].max() > b0['X'][:, f].min()]
         if elig:
             break
         case['seed'] = case['seed'] + 7919
